@@ -134,6 +134,16 @@ func RunOne(t *testing.T, req RunReq) (res RunRes) {
 				env.S.TraceOut = func(s string) { fmt.Fprintln(os.Stderr, s) }
 			}
 			env.S.Run(func() { sc.Run(env, &plan) })
+			if env.S.Aborted != "" {
+				// cut short (cap or invariant): do not let the world free-run; the
+				// process is abandoned instead
+				env.S.Detach()
+				res.Leftover = 1
+				fill(&res, env, req, cfg, plan, t0)
+				emit(res)
+				EmitPairs()
+				os.Exit(75)
+			}
 			// teardown: free-running; give timers a chance to expire
 			synctest.Wait()
 			for i := 0; i < 4 && runtime.NumGoroutine() > base+2; i++ {
